@@ -9,12 +9,14 @@ git checkout -q -- src 2>/dev/null; git apply deliver/patch.diff || { echo "SEED
 mkdir -p tests; names=""
 for f in deliver/*.rs; do [ -f "$f" ] || continue; cp $f tests/; names="$names $(basename $f .rs)"; done
 with=""; without=""
-for n in $names; do timeout 900 cargo test --offline --test $n > /tmp/vs_$$.log 2>&1; with="$with $n:rc=$?"; done
+# a demonstration that says it needs the verification hooks (virtual clock, crate-private types) is built with them
+demoflags=""; if grep -qs "cfg mainline_verif" deliver/demo.md deliver/*.rs; then demoflags="--cfg mainline_verif"; fi
+for n in $names; do RUSTFLAGS="$demoflags" timeout 900 cargo test --offline --test $n > /tmp/vs_$$.log 2>&1; with="$with $n:rc=$?"; done
 timeout 1500 cargo test --offline --lib > /tmp/vs_suite_$$.log 2>&1; suite=$?
 failed=$(grep -E "^test .* FAILED" /tmp/vs_suite_$$.log | tr '\n' ' ')
 git apply -R deliver/patch.diff
-for n in $names; do timeout 900 cargo test --offline --test $n > /tmp/vs_$$.log 2>&1; without="$without $n:rc=$?"; done
+for n in $names; do RUSTFLAGS="$demoflags" timeout 900 cargo test --offline --test $n > /tmp/vs_$$.log 2>&1; without="$without $n:rc=$?"; done
 git apply deliver/patch.diff
 for n in $names; do rm -f tests/$n.rs; done
 rm -f /tmp/vs_$$.log /tmp/vs_suite_$$.log
-echo "SEED $wt: with-change[$with ] without-change[$without ] lib-suite rc=$suite failed=[$failed]"
+echo "SEED $wt (demo flags: ${demoflags:-none}): with-change[$with ] without-change[$without ] lib-suite rc=$suite failed=[$failed]"
